@@ -642,6 +642,22 @@ func c12Oracle(info *runInfo, res *verifsim.Result) {
 		}
 		spec := info.plan.Nodes[r.node].Config.ifaceSpecFor(r.ifn)
 		g := h.byKey[genKey(r.node, r.ifn, r.gen)]
+		// "CoreRAD's own RA" is the one of this interface as it is now: an address
+		// listing taken from another interface index (the one this name had before
+		// it was re-created) compares the neighbour with somebody else's RA
+		if g != nil && g.index != 0 {
+			foreign := false
+			for i, idx := range sp.build.addrIdx {
+				if idx != g.index {
+					res.Violate("C12.exact", "foreign-own-ra", "%s (node %d): RA from %s received at %s was checked against an own RA whose address listing #%d came from interface index %d, not from %s (index %d)", r.ifn, r.node, r.src, ms(r.t), i, idx, r.ifn, g.index)
+					foreign = true
+					break
+				}
+			}
+			if foreign {
+				continue
+			}
+		}
 		in := modelIn{spec: spec, fwd: sp.build.fwd, addr: sp.build.addr, routes: sp.build.routes, nLoop: 1,
 			epoch: info.epochs[r.node], t1: sp.build.t1, t2: sp.build.t2}
 		if g != nil {
